@@ -326,7 +326,7 @@ func (g *lgen) asyncSnippet() string {
 		sb.WriteString("var ao = new " + c + "();\n" + g.p("await ao.m(1, 2)") + ";\n" + g.p("await "+c+".sm()") + ";\n" + g.p("await ao.fld.call(null)") + ";\nfor await (var q of ao.ag()) " + g.p("q") + ";\n")
 	case 6: // await in expression positions with lowered operators
 		sb.WriteString("var ob = {k: null, n: 2, get g() { " + g.p("\"get-g\"") + "; return null; }, set g(v) { " + g.p("\"set-g\", v") + "; }, f(z) { return this === ob ? z : \"bad-this\"; }};\n")
-		sb.WriteString(g.p("ob.k ??= await "+g.pval()) + ";\n" + g.p("ob[await "+g.p("\"n\"")+"] **= await "+g.p("3")) + ";\n" + g.p("(await ob)?.f?.(await "+g.pval()+")") + ";\n" + g.p("ob.g ||= await "+g.p("4")) + ";\n" + g.p("await (async (a = await 1, {n, ...r} = ob) => [a, n, Object.keys(r).join()])()") + ";\n")
+		sb.WriteString(g.p("ob.k ??= await "+g.pval()) + ";\n" + g.p("ob[await "+g.p("\"n\"")+"] **= await "+g.p("3")) + ";\n" + g.p("(await ob)?.f?.(await "+g.pval()+")") + ";\n" + g.p("ob.g ||= await "+g.p("4")) + ";\n" + g.p("await (async (a = 1, {n, ...r} = ob) => [a, n, Object.keys(r).join()])()") + ";\n")
 	case 7: // object with async methods, rejected promise ordering
 		sb.WriteString("var ord = [];\nvar obj2 = {async a() { ord.push(1); await null; ord.push(3); return \"a\"; }, async *b() { ord.push(\"b\"); yield 1; }, c: async function() { return this === obj2; }, d: async x => x + 1};\n")
 		sb.WriteString("var pa = obj2.a(); ord.push(2);\n" + g.p("await pa, await obj2.c(), await obj2.d(1), ord") + ";\n" + g.p("(await obj2.b().next()).value, ord") + ";\n")
